@@ -110,6 +110,87 @@ EXTRA_SERVICE = ["KillMode=mixed", "KillMode=control-group", "KillMode=process",
                  "WorkingDirectory=/wd", "WorkingDirectory=", "Restart=always", "NotifyAccess=main", "Environment=X=1", "ExecStartPre=/bin/true", "KillMode="]
 
 
+SEPS = "=,:/-@.%"
+
+
+def degrade(rng, v):
+    """structure-aware damage of a value: the field splitters of the converters (csv fields, name=value, a:b:c, port ranges, unit references) are where
+    unwrap/expect/index sites sit, so one separator is dropped, doubled, replaced, or the text next to it is cut away"""
+    pos = [i for i, ch in enumerate(v) if ch in SEPS]
+    if not pos:
+        return v
+    i = rng.choice(pos)
+    nxt = min([j for j in pos if j > i] + [len(v)])
+    op = rng.randrange(7)
+    if op == 0:
+        return v[:i] + v[i + 1:]                       # separator dropped
+    if op == 1:
+        return v[:i] + v[nxt:]                         # separator and the text up to the next one dropped ("type=bind,x" -> "type,x")
+    if op == 2:
+        return v[:i + 1]                               # cut after the separator
+    if op == 3:
+        return v[:i]                                   # cut before it
+    if op == 4:
+        return v[:i] + v[i] + v[i:]                    # doubled
+    if op == 5:
+        return v[:i] + rng.choice(SEPS) + v[i + 1:]    # replaced by another separator
+    return v[i:]                                       # everything before it dropped
+
+
+def all_degradations(v, wide=False):
+    """every single-separator damage of v (deterministic enumeration of degrade())"""
+    out = []
+    pos = [i for i, ch in enumerate(v) if ch in SEPS]
+    for i in pos:
+        nxt = min([j for j in pos if j > i] + [len(v)])
+        out += [v[:i] + v[i + 1:], v[:i] + v[nxt:], v[:i + 1], v[:i], v[:i] + v[i] + v[i:], v[i:]]
+        for c in (SEPS if wide else "=,:"):
+            if c != v[i]:
+                out.append(v[:i] + c + v[i + 1:])
+    return sorted(set(out))
+
+
+# well-formed values of the keys whose values the converters take apart
+STRUCTURED = {
+    "container": {
+        "Mount": ["type=bind,source=/x,target=/y", "type=volume,source=v.volume,destination=/t,ro", "type=image,source=i.image,dst=/t", "type=tmpfs,tmpfs-size=512M,destination=/t",
+                  "type=bind,src=./rel,dst=/d", "type=glob,source=/g*,target=/t", "type=devpts,destination=/dev/pts"],
+        "Volume": ["/src:/dst", "/a:/b:ro,z", "v.volume:/c", "./rel:/d:Z", "named:/c"], "Network": ["n.network:ip=10.0.0.2", "c.container", "host", "n.network"],
+        "ExposeHostPort": ["80", "8000-9000/tcp"], "PublishPort": ["8080:80", "127.0.0.1:53:53/udp", "[::1]:80:80"], "AddDevice": ["/dev/zero:/dev/z:rw", "-/dev/maybe"],
+        "Label": ["k=v w=x"], "Environment": ["A=1 B=2"], "Annotation": ["a.b/c=d"], "Secret": ["sec,type=env,target=T"], "Tmpfs": ["/t:rw,size=1M"],
+        "RemapUid": ["0:100:10"], "RemapGid": ["0:200:10"], "UIDMap": ["0:1000:1"], "Pod": ["p.pod"], "Image": ["i.image", "b.build", "quay.io/a/b:1"], "Rootfs": ["/r:O"],
+        "EnvironmentFile": ["./rel.env", "%t/x.env"], "Timezone": ["Europe/Berlin"], "IP": ["10.0.0.5"], "IP6": ["fd00::5"], "User": ["1000:1000"], "HealthCmd": ["/bin/check --x=1"],
+        "Ulimit": ["nofile=1000:2000"], "Sysctl": ["net.a.b=1"], "LogOpt": ["path=/x"], "DNS": ["1.1.1.1"], "AddHost": ["h:10.0.0.1"], "Exec": ["sh -c 'a=b'"],
+    },
+    "pod": {"Volume": ["/src:/dst:ro", "v.volume:/c"], "Network": ["n.network:alias=a"], "PublishPort": ["8080:80/tcp"], "RemapUid": ["0:100:10"], "UIDMap": ["0:1000:1"], "AddHost": ["h:10.0.0.1"]},
+    "kube": {"Yaml": ["./rel/y.yml", "/abs/y.yml"], "ConfigMap": ["./cm.yml"], "Network": ["n.network:ip=10.0.0.2"], "PublishPort": ["8080:80"], "SetWorkingDirectory": ["yaml", "unit"],
+             "RemapUid": ["0:100:10"], "AutoUpdate": ["registry", "ctr/local"]},
+    "volume": {"Device": ["/dev/sda1", "tmpfs"], "Options": ["ro,uid=1000"], "Image": ["i.image"], "Label": ["k=v"], "Driver": ["image"]},
+    "network": {"Subnet": ["10.0.0.0/24"], "Gateway": ["10.0.0.1"], "IPRange": ["10.0.0.0/28"], "Label": ["k=v"], "Options": ["mtu=1500,x=y"], "DNS": ["1.1.1.1"]},
+    "image": {"Image": ["quay.io/a/b:1", "docker://x/y@sha256:ab"], "ImageTag": ["localhost/t:1"], "Creds": ["u:p"], "AuthFile": ["./auth.json"]},
+    "build": {"File": ["./Containerfile", "http://u/x", "git://r/x.git"], "ImageTag": ["localhost/t:1"], "SetWorkingDirectory": ["file", "unit", "./ctx", "http://u/x"], "Volume": ["/a:/b:ro", "v.volume:/c"],
+              "Network": ["n.network:ip=1"], "Secret": ["id=s,src=./f"], "Label": ["k=v"], "Environment": ["A=1"], "Target": ["stage-1"]},
+}
+
+
+def gen_splitter_stress(typ, wide=False):
+    """units of one type, each with one structured value damaged at one separator (plus the intact value)"""
+    sec = docs.TYPES[typ][0]
+    ok = set(supported_keys(typ))
+    out = []
+    for k, vals in STRUCTURED[typ].items():
+        if k not in ok:
+            continue
+        for v in vals:
+            for d in [v] + all_degradations(v, wide):
+                base = docs.MINIMAL[typ]
+                if k in ("Image", "Rootfs", "Yaml", "File", "ImageTag") and (k + "=") in base:
+                    base = "\n".join(l for l in base.split("\n") if not l.startswith(k + "=")) + ("\n" if not base.endswith("\n") else "")
+                    base = base.lstrip("\n")
+                out.append("[%s]\n%s%s=%s\n" % (sec, base, k, d))
+    return out
+
+
 def supported_keys(typ):
     sec, table = docs.TYPES[typ]
     return list(table) + ["ContainersConfModule", "GlobalArgs", "PodmanArgs", "ServiceName"]
@@ -124,7 +205,10 @@ def gen_wild_unit(rng, typ, with_base=True):
         if rng.random() < 0.03:
             k = rng.choice([k.lower(), k + "x", "Bogus", rng.choice(supported_keys(rng.choice(list(docs.TYPES))))])
         vals = SPECIAL_VALUES.get(k, []) + WILD
-        lines.append("%s=%s" % (k, rng.choice(vals)))
+        v = rng.choice(vals)
+        if rng.random() < 0.3:
+            v = degrade(rng, v)
+        lines.append("%s=%s" % (k, v))
     text = "[%s]\n%s%s\n" % (sec, docs.MINIMAL[typ] if (with_base and rng.random() < 0.9) else "", "\n".join(lines))
     if rng.random() < 0.5:
         text += "[Service]\n" + "\n".join(rng.sample(EXTRA_SERVICE, rng.randint(1, 3))) + "\n"
